@@ -34,3 +34,124 @@ pub fn shuffled<T: Clone>(rng: &mut impl Rng, v: &[T]) -> Vec<T> {
     v.shuffle(rng);
     v
 }
+
+/// A generated committee with ground truth (which secret key sits at which schedule index).
+pub struct Committee {
+    pub schedule: validator::Schedule,
+    /// secret keys in *schedule order* (index i signs bit i)
+    pub sk: Vec<validator::SecretKey>,
+    pub w: Vec<u64>,
+    pub genesis: validator::GenesisHash,
+    pub epoch: validator::EpochNumber,
+    /// keys that are not members
+    pub outsiders: Vec<validator::SecretKey>,
+}
+
+impl Committee {
+    pub fn new(rng: &mut impl Rng, pool: &[validator::SecretKey], n: usize, family: usize) -> Self {
+        let w = weights(rng, n, family);
+        let mut idx: Vec<usize> = (0..pool.len()).collect();
+        idx.shuffle(rng);
+        let members: Vec<_> = idx[..n].iter().map(|i| pool[*i].clone()).collect();
+        let outsiders: Vec<_> = idx[n..].iter().take(2).map(|i| pool[*i].clone()).collect();
+        let schedule = validator::Schedule::new(
+            members.iter().zip(&w).map(|(k, w)| validator::ValidatorInfo {
+                key: k.public(),
+                weight: *w,
+                leader: true,
+            }),
+            validator::LeaderSelection::default(),
+        )
+        .unwrap();
+        // ground truth in schedule order
+        let mut sk = vec![];
+        let mut ww = vec![];
+        for v in schedule.iter() {
+            let j = members.iter().position(|m| m.public() == v.key).unwrap();
+            sk.push(members[j].clone());
+            ww.push(w[j]);
+        }
+        Committee {
+            schedule,
+            sk,
+            w: ww,
+            genesis: rng.gen(),
+            epoch: validator::EpochNumber(rng.gen_range(0..3)),
+            outsiders,
+        }
+    }
+    pub fn n(&self) -> usize {
+        self.sk.len()
+    }
+    pub fn total(&self) -> u128 {
+        self.w.iter().map(|x| *x as u128).sum()
+    }
+    /// independent thresholds in u128
+    pub fn f(&self) -> u128 {
+        (self.total() - 1) / 5
+    }
+    pub fn quorum(&self) -> u128 {
+        self.total() - self.f()
+    }
+    pub fn subquorum(&self) -> u128 {
+        self.total() - 3 * self.f()
+    }
+    pub fn weight_of(&self, set: &[usize]) -> u128 {
+        set.iter().map(|i| self.w[*i] as u128).sum()
+    }
+    pub fn view(&self, number: u64) -> validator::v2::View {
+        validator::v2::View {
+            genesis: self.genesis,
+            epoch: self.epoch,
+            number: validator::ViewNumber(number),
+        }
+    }
+    /// A subset of signers whose weight relates to the quorum as requested:
+    /// 0 = random, 1 = minimal set reaching the quorum (dropping any member goes below),
+    /// 2 = a maximal set strictly below the quorum, 3 = everybody, 4 = single signer
+    pub fn subset(&self, rng: &mut impl Rng, mode: usize) -> Vec<usize> {
+        let n = self.n();
+        let mut order: Vec<usize> = (0..n).collect();
+        order.shuffle(rng);
+        let q = self.quorum();
+        let mut set: Vec<usize> = match mode % 5 {
+            0 => order.iter().copied().filter(|_| rng.gen_bool(0.7)).collect(),
+            1 => {
+                let mut s = vec![];
+                for i in &order {
+                    if self.weight_of(&s) >= q {
+                        break;
+                    }
+                    s.push(*i);
+                }
+                // make it minimal: drop members that are not needed
+                let mut k = 0;
+                while k < s.len() {
+                    let mut t = s.clone();
+                    t.remove(k);
+                    if self.weight_of(&t) >= q {
+                        s = t;
+                    } else {
+                        k += 1;
+                    }
+                }
+                s
+            }
+            2 => {
+                let mut s = vec![];
+                for i in &order {
+                    let mut t = s.clone();
+                    t.push(*i);
+                    if self.weight_of(&t) < q {
+                        s = t;
+                    }
+                }
+                s
+            }
+            3 => order.clone(),
+            _ => vec![order[0]],
+        };
+        set.sort();
+        set
+    }
+}
